@@ -87,6 +87,7 @@ class FunctionReport:
         self.errors = []
         self.source = None         # dict(file, sha256, lines)
         self.second = dict(asked=0, unsat=0, unknown=0, sat=0)
+        self.functions = {}        # qualname -> [first line, last line] of every /repo function body executed
         self.dropped = set()
 
     def as_dict(self):
@@ -95,6 +96,7 @@ class FunctionReport:
                     unsupported=self.unsupported, covers=self.covers, canaries=self.canaries,
                     assumptions=sorted(self.assumptions), solver_time=round(self.solver_time, 3),
                     errors=self.errors, source=self.source, dropped=sorted(self.dropped), second=self.second,
+                    functions=self.functions,
                     effects_seen=sorted(self.effects_seen))
 
 
@@ -1195,7 +1197,12 @@ class Engine:
             raise Unsupported('call of %s which has neither contract nor inline permission' % f.qualname, node)
         return self.run_function(f, args, kwargs)
 
+    def _note_function(self, f):
+        if f.qualname not in self.report.functions and hasattr(f.node, 'lineno'):
+            self.report.functions[f.qualname] = [f.node.lineno, getattr(f.node, 'end_lineno', f.node.lineno)]
+
     def run_function(self, f, args, kwargs):
+        self._note_function(f)
         fr = Frame(f.node, f.module, f.frame, f.qualname)
         fr.self_cls = f.cls
         self.bind_params(f.node.args, args, kwargs, fr, f)
@@ -1218,6 +1225,7 @@ class Engine:
     def run_body(self, f, args, kwargs):
         """Execute the body of a generator / async-generator function with its `yield`s handled by
         the contract's yield hook (used by proof harnesses; generators are never run lazily)."""
+        self._note_function(f)
         fr = Frame(f.node, f.module, f.frame, f.qualname)
         fr.self_cls = f.cls
         fr.is_gen = True
